@@ -63,9 +63,11 @@ fn main() {
             // (UB and data-race interpreters are ~10^4 x slower: a few hundred operations)
             let cases: u64 = args.get(2).and_then(|s| s.parse().ok()).unwrap_or(60);
             let threads: usize = args.get(3).and_then(|s| s.parse().ok()).unwrap_or(4);
+            // optional 5th argument: slice number, so that parallel processes cover different cases / corpus programs
+            let slice: u64 = args.get(5).and_then(|s| s.parse().ok()).unwrap_or(0);
             let mut outcomes = std::collections::BTreeMap::<String, u64>::new();
             for i in 0..cases {
-                let mut rng = rng::Rng::new(rng::mix(&[0x5eed, i]));
+                let mut rng = rng::Rng::new(rng::mix(&[0x5eed, i + slice * cases]));
                 let vars = gen::random_vars(&mut rng, 2);
                 let cfg = gen::GenCfg::basic(vars.clone());
                 let ty = gen::random_ty(&mut rng, 1);
@@ -84,7 +86,8 @@ fn main() {
             let mut c = rscel::CelContext::new();
             let mut names = Vec::new();
             let nprogs: usize = args.get(4).and_then(|s| s.parse().ok()).unwrap_or(40);
-            for (i, s) in corpus::CORPUS.iter().enumerate().take(nprogs) {
+            let skip = (slice as usize * nprogs) % corpus::CORPUS.len().max(1);
+            for (i, s) in corpus::CORPUS.iter().enumerate().skip(skip).take(nprogs) {
                 if !s.contains("now()") && !s.contains("timestamp()") && c.add_program_str(&format!("p{}", i), s).is_ok() {
                     names.push(format!("p{}", i));
                 }
